@@ -47,4 +47,57 @@ theorem updModesSpec_denotes (st : Sspor) (a : UpdArgs) :
             · simp [LTree.updModesSpec, LTree.eval, LTree.condSem, LTree.actSem, LTree.excSem, Sspor.updateModes, hz, hnm, hb, hc, hk]
               split <;> simp_all
 
+/-- the specification tree of `_validate_n_sensors` evaluates to step 3 of the machine's `fit` -/
+theorem validateSpec_denotes (st : Sspor) (a : UpdArgs) :
+    LTree.validateSpec.eval st a = some st.validateN := by
+  cases hbm : st.bm with
+  | none => simp [LTree.validateSpec, LTree.eval, LTree.actSem, Sspor.validateN, hbm]
+  | some shape =>
+    cases hn : st.nSensors with
+    | none =>
+      simp [LTree.validateSpec, LTree.eval, LTree.actSem, LTree.condSem, Sspor.validateN, hbm, hn]
+    | some k =>
+      cases hd : st.defaulted with
+      | true =>
+        simp [LTree.validateSpec, LTree.eval, LTree.actSem, LTree.condSem, Sspor.validateN, hbm, hn, hd]
+      | false =>
+        by_cases hk : k > shape.1
+        · simp [LTree.validateSpec, LTree.eval, LTree.actSem, LTree.condSem, LTree.excSem, Sspor.validateN, hbm, hn, hd, hk]
+        · simp [LTree.validateSpec, LTree.eval, LTree.actSem, LTree.condSem, LTree.excSem, Sspor.validateN, hbm, hn, hd, hk]
+
+/-- … and `Sspor.fit` IS: basis step, matrix representation, that validation, then the ranking -/
+theorem Sspor.fit_eq_validate (st : Sspor) (ne nf : Nat) (pf : Bool) (o : List Nat) :
+    st.fit ne nf pf o =
+      (let p := if pf then (st.basis, if st.basis.fitted.isSome then none else some Err.notFitted) else st.basis.fit ne nf
+       match p.2 with
+       | some e => ({ st with basis := p.1 }, some e)
+       | none =>
+         match p.1.rep st.nBasisModes with
+         | .error e => ({ st with basis := p.1 }, some e)
+         | .ok shape =>
+           match ({ st with basis := p.1, bm := some shape } : Sspor).validateN with
+           | (st3, some e) => (st3, some e)
+           | (st3, none) => ({ st3 with ranking := some o }, none)) := by
+  unfold Sspor.fit Sspor.validateN
+  generalize (if pf = true then
+      (st.basis, if st.basis.fitted.isSome then none else some Err.notFitted)
+    else st.basis.fit ne nf) = p
+  obtain ⟨b, e1⟩ := p
+  cases e1 with
+  | some e => rfl
+  | none =>
+    simp only []
+    cases b.rep st.nBasisModes with
+    | error e => rfl
+    | ok shape =>
+      simp only []
+      cases hn : st.nSensors with
+      | none => rfl
+      | some k =>
+        simp only []
+        cases hd : st.defaulted with
+        | true => rfl
+        | false =>
+          by_cases h : k > shape.1 <;> simp [h]
+
 end PsVerif
